@@ -799,3 +799,101 @@ Proof.
   destruct (fiber_check p idem cl0 down c (pre ++ f :: g :: post)) as [r|] eqn:E; [|discriminate].
   exact (shards_ok_pair _ _ _ _ _ (fiber_check_shards _ _ _ _ _ _ _ E) Hn Hd).
 Qed.
+
+(* ---- completeness: the checkers accept exactly what they are proved sound for ---------------------- *)
+Lemma In_memN x l : In x l -> memN x l = true.
+Proof. intros H. now apply memN_In. Qed.
+
+Lemma NoDup_nodupb l : NoDup l -> nodupb l = true.
+Proof.
+  induction 1 as [|x l Hx _ IH]; [reflexivity|]. cbn [nodupb]. rewrite IH, andb_true_r.
+  apply negb_true_iff. destruct (memN x l) eqn:E; [|reflexivity]. apply memN_In in E. contradiction.
+Qed.
+
+Lemma ev_obs_matches ev f : ev_obs ev f -> ev_matches false ev f = true.
+Proof.
+  intros [o [-> Hans]]. unfold ev_matches. rewrite N.eqb_refl.
+  destruct (consistency_eq_dec (f_cl f) (f_cl f)); [|contradiction]. cbn [andb orb].
+  inversion Hans as [Ho Ha|e0 d Ho Ha]; [reflexivity|].
+  destruct (attempt_error_eq_dec e0 e0); [reflexivity|contradiction].
+Qed.
+
+Lemma Forall2_match_frames evs frs : Forall2 ev_obs evs frs -> match_frames false evs frs = true.
+Proof.
+  induction 1 as [|ev f evs frs H _ IH]; [reflexivity|]. cbn [match_frames andb].
+  rewrite (ev_obs_matches _ _ H). exact IH.
+Qed.
+
+(* completeness of the one-fiber checker: it accepts every observation of a run of the model *)
+Lemma single_complete p idem cl0 nodes down plan outs tr r frs tret o co :
+  fiber p idem cl0 plan outs = (tr, r) ->
+  Forall2 ev_obs (attempts tr) frs ->
+  res_match r o = true -> coord_match co r = true ->
+  seq_ok frs = true -> shards_ok down frs = true -> last_done_by tret frs = true ->
+  NoDup plan -> incl plan nodes ->
+  (forall n, In n nodes -> In n plan \/ In n down) ->
+  (forall t, In t (conn_fail_targets tr) -> In t down) ->
+  check_single p idem cl0 nodes down (mkCert plan outs false) frs tret o co = true.
+Proof.
+  intros Hf Ho Hr Hc Hs Hsh Hl Hnd Hincl Hcov Hcf.
+  unfold check_single. cbn [c_free c_plan negb andb].
+  assert (Hwf : plan_wf nodes plan = true).
+  { unfold plan_wf. rewrite (NoDup_nodupb _ Hnd). cbn [andb]. apply forallb_forall.
+    intros t Ht. apply In_memN. auto. }
+  assert (Hpc : plan_covers nodes down plan = true).
+  { unfold plan_covers. apply forallb_forall. intros n Hn.
+    destruct (Hcov n Hn) as [H|H]; rewrite (In_memN _ _ H); [reflexivity|apply orb_true_r]. }
+  rewrite Hwf, Hpc, Hl. cbn [andb].
+  unfold fiber_check. cbn [c_plan c_outs c_free]. rewrite Hf.
+  rewrite (Forall2_match_frames _ _ Ho), Hs, Hsh. cbn [andb].
+  assert (Hd : forallb (fun t => memN t down) (conn_fail_targets tr) = true).
+  { apply forallb_forall. intros t Ht. apply In_memN. auto. }
+  rewrite Hd, Hr, Hc. reflexivity.
+Qed.
+
+Lemma check_single_extra p idem cl0 nodes down c frs tret o co :
+  check_single p idem cl0 nodes down c frs tret o co = true ->
+  c_free c = false /\ shards_ok down frs = true /\ last_done_by tret frs = true.
+Proof.
+  unfold check_single. intros H.
+  apply andb_true_iff in H as [H H5]. apply andb_true_iff in H as [H H4].
+  apply andb_true_iff in H as [H _]. apply andb_true_iff in H as [H1 _].
+  apply negb_true_iff in H1. split; [assumption|]. split; [|assumption].
+  destruct (fiber_check p idem cl0 down c frs) as [r|] eqn:E; [|discriminate].
+  exact (fiber_check_shards _ _ _ _ _ _ _ E).
+Qed.
+
+(* the one-fiber checker accepts EXACTLY the observations of runs of the model *)
+Lemma single_iff p idem cl0 nodes down c frs tret o co :
+  check_single p idem cl0 nodes down c frs tret o co = true <->
+  (c_free c = false /\
+   exists tr r,
+     fiber p idem cl0 (c_plan c) (c_outs c) = (tr, r)
+     /\ Forall2 ev_obs (attempts tr) frs
+     /\ res_match r o = true /\ coord_match co r = true
+     /\ seq_ok frs = true /\ shards_ok down frs = true /\ last_done_by tret frs = true
+     /\ NoDup (c_plan c) /\ incl (c_plan c) nodes
+     /\ (forall n, In n nodes -> In n (c_plan c) \/ In n down)
+     /\ (forall t, In t (conn_fail_targets tr) -> In t down)).
+Proof.
+  split.
+  - intros H. destruct (check_single_extra _ _ _ _ _ _ _ _ _ _ H) as [Hfree [Hsh Hl]].
+    destruct (single_sound _ _ _ _ _ _ _ _ _ _ H) as [tr [r [Hf [Ho [Hr [_ [Hs [Hnd [Hi [Hcov [Hcf Hco]]]]]]]]]]].
+    split; [assumption|]. exists tr, r. repeat split; assumption.
+  - intros [Hfree [tr [r [Hf [Ho [Hr [Hco [Hs [Hsh [Hl [Hnd [Hi [Hcov Hcf]]]]]]]]]]]]].
+    destruct c as [plan outs free]. cbn in *. subst free.
+    eapply single_complete; eassumption.
+Qed.
+
+Lemma overlap_ok_complete bound frs :
+  (forall t, (List.length (in_flight t frs) <= bound)%nat /\ NoDup (map f_node (in_flight t frs))) ->
+  overlap_ok bound frs = true.
+Proof.
+  intros H. unfold overlap_ok. apply forallb_forall. intros f _. cbv zeta.
+  destruct (H (f_arr f)) as [H1 H2]. apply andb_true_iff. split; [now apply Nat.leb_le|now apply NoDup_nodupb].
+Qed.
+
+Lemma overlap_ok_iff bound frs :
+  overlap_ok bound frs = true <->
+  forall t, (List.length (in_flight t frs) <= bound)%nat /\ NoDup (map f_node (in_flight t frs)).
+Proof. split; [apply overlap_ok_sound|apply overlap_ok_complete]. Qed.
